@@ -25,6 +25,14 @@ CHECKS = {
              text="Bounded-exhaustive: all sequences to depth 8 (quick) / 10 (thorough) of start/acquire/release/complete/abort/watchdog over 2-3 operations x 2-3 resources with and without preemption on the real controller; TLC derives the ground-truth blocked-on relation from call results only and evaluates Exact / CycleIsReal / VictimRule on every edge; the specification (repaired graph maintenance) is model-checked to coincide with the ground truth.",
              note="Trusted: TLC/SANY, public dataclass fields of the controller, the ground-truth definition stated in DESIGN.md section 4 C15. Two priority levels, hold count capped at 2.",
              ref="DESIGN.md section 4 C15"),
+ "C07": dict(technique="TLA+ spec (GuardLoop.tla: gate table + cache) with the table checked against the statement's rule by TLC (ASSUME TableOK) and model-checked; whole 6x7x7 table and cache/repeat histories run on the real loop and judged by TLC (Trace_GuardLoop.tla)",
+             text="Exhaustive over the finite table: every gate logic x executor verdict x assessor verdict (incl. unknown verdicts and exceptions), as first requests and as repeat/cache histories over two prompts, executed on the real loop with scripted stub agents; TLC evaluates OnlyIf / TokenRule / ExceptionBlocks / CacheConsistent on every edge. Prompt strings are sampled from a corpus (token hash binding).",
+             note="Trusted: TLC/SANY, stub agents substituted via public attributes, harness-computed sha256 binding of the token. 'All prompt strings' is sampled; the verdict table is complete.",
+             ref="DESIGN.md section 4 C07"),
+ "C08": dict(technique="TLA+ spec (GuardLoop.tla: circuit breaker automaton) model-checked with TLC; real loop explored by BFS under a virtual clock with scripted agents, every edge judged by TLC (Trace_GuardLoop.tla) with failure monitors carried by TLC; TLC -simulate behaviours replayed",
+             text="Bounded-exhaustive: all histories to depth 8 (quick) / 10 (thorough) over 7 outcome kinds x 2 prompts, clock advances below/at the recovery timeout and manual reset, for thresholds 1..4, all gate logics, breaker and cache on/off; TLC evaluates NoEarlyTrip, TripsByThreshold, Isolation (no agent call, no energy), ProbeAdmitted, ProbeSuccessCloses, ProbeFailureReopens, BlocksNotFailures, DisabledNeverOpen on every edge.",
+             note="Trusted: TLC/SANY, stub agents, virtual clock by namespace substitution, failure classification by scripted verdicts as stated in DESIGN.md section 6.",
+             ref="DESIGN.md section 4 C08"),
 }
 NOT_APPLICABLE = []
 
